@@ -1,8 +1,8 @@
 """
 C17 -- metrics are classified and evaluated according to the documented contract.
 
-E1 on the MET-1 family (direction x reference x declared type x anchor, 1-2 metric nodes) x every architecture x 4
-evaluator scripts (complete, one metric missing, NaN, empty), through a DSGEvaluator subclass.
+E1 on the MET-1 family (direction x reference x declared type x anchor, 1-2 metric nodes) x every architecture x 5
+evaluator scripts (complete, one metric missing, NaN, empty, values for all design-space metric nodes incl. absent ones), through a DSGEvaluator subclass.
 """
 import math
 import itertools
@@ -73,6 +73,8 @@ def run_case(case):
     class Ev(DSGEvaluator):
         def _evaluate(self, dsg, metric_nodes):
             out = {}
+            if script['mode'] == 'all_nodes':   # ignores the argument: values for every metric node of the design space
+                return {node: 10.+ord(node.name[-1]) for node in self.metric_nodes}
             for i, node in enumerate(sorted(metric_nodes, key=lambda n: n.name)):
                 if script['mode'] == 'empty':
                     continue
@@ -126,7 +128,7 @@ def run_case(case):
             viol('objective-node-not-in-every-architecture', dict(name=o))
     dvs = ev.des_vars
     for x in itertools.product(*[range(dv.n_opts) for dv in dvs]):
-        for mode in ('complete', 'missing', 'nan', 'empty'):
+        for mode in ('complete', 'missing', 'nan', 'empty', 'all_nodes'):
             script['mode'] = mode
             inst, x_imp, act = ev.get_graph(list(x))
             res['evals'] += 1
@@ -141,7 +143,7 @@ def run_case(case):
             for i, n in enumerate(present):
                 if mode == 'empty' or (mode == 'missing' and i == 0):
                     continue
-                returned[n] = math.nan if mode == 'nan' else 10.+ord(n[-1])
+                returned[n] = math.nan if mode == 'nan' else 10.+ord(n[-1])   # 'all_nodes': same values for the present nodes
             if len(ov) != len(exp_obj) or len(cv) != len(exp_con):
                 viol('wrong-number-of-values', dict(x=x, mode=mode, n_obj=len(ov), n_con=len(cv)))
                 return res
